@@ -55,6 +55,52 @@ theorem wOn_append (xs : Log) (a : Weights.Add) (d : Int) :
     rw [hf, List.append_nil]
     simp only [h, if_false]
 
+/-! ### the model's `childSegs` when an add is appended -/
+
+theorem mem_dedup (x : String) : ∀ l : List String, x ∈ Weights.dedup l ↔ x ∈ l := by
+  intro l
+  induction l with
+  | nil => simp [Weights.dedup]
+  | cons y ys ih =>
+    simp only [Weights.dedup, List.mem_cons, List.mem_filter, ih, ne_eq, decide_not, Bool.not_eq_eq_eq_not, Bool.not_true,
+      decide_eq_false_iff_not]
+    by_cases h : x = y
+    · simp [h]
+    · simp [h]
+
+theorem dedup_snoc (t : String) : ∀ xs : List String,
+    Weights.dedup (xs ++ [t]) = if t ∈ xs then Weights.dedup xs else Weights.dedup xs ++ [t] := by
+  intro xs
+  induction xs with
+  | nil => simp [Weights.dedup]
+  | cons x xs ih =>
+    simp only [List.cons_append, Weights.dedup, ih, List.mem_cons]
+    by_cases htx : t = x
+    · subst htx
+      by_cases hm : t ∈ xs
+      · simp [hm]
+      · simp [hm, List.filter_append]
+    · by_cases hm : t ∈ xs
+      · simp [hm, htx]
+      · simp [hm, htx, List.filter_append]
+
+theorem childSegs_append (L : Log) (a : Weights.Add) (π : List String) :
+    Weights.childSegs (L ++ [a]) π =
+      if π.isPrefixOf a.path then
+        match (a.path.drop π.length).head? with
+        | some t => if t ∈ Weights.childSegs L π then Weights.childSegs L π else Weights.childSegs L π ++ [t]
+        | none => Weights.childSegs L π
+      else Weights.childSegs L π := by
+  unfold Weights.childSegs Weights.below
+  rw [List.filter_append]
+  by_cases hp : π.isPrefixOf a.path = true
+  · simp only [hp, List.filter_cons_of_pos, List.filter_nil, if_true, List.filterMap_append, List.filterMap_cons, List.filterMap_nil,
+      Weights.nextSeg]
+    cases hh : (List.drop π.length a.path).head? with
+    | none => simp
+    | some t => simp only [dedup_snoc, mem_dedup]
+  · simp [hp]
+
 /-- **the node of the path `π`** in the tree of the adds `L` -/
 structure Local (L : Log) (π : List String) (n : Node) : Prop where
   segment : n.Segment = π.getLast?.getD ""
@@ -62,6 +108,7 @@ structure Local (L : Log) (π : List String) (n : Node) : Prop where
   weights : ∀ W, n.Value.Weights = some W → NodupKeys W ∧ ∀ d, AMap.find? W d = wOn (ownL L π) d
   nodup : (AMap.keys n.Children).Nodup
   children : ∀ s, s ∈ AMap.keys n.Children ↔ ∃ a ∈ L, (π ++ [s]).isPrefixOf a.path = true
+  keysEq : AMap.keys n.Children = Weights.childSegs L π
 
 /-- every node of the tree is the node of its path -/
 def Rep (L : Log) (T : Node) : Prop := ∀ π n, MNode.nodeAt? T π = some n → Local L π n
@@ -72,7 +119,7 @@ theorem Rep_new : Rep [] (MNode.new "" : Node) := by
   | nil =>
     simp only [MNode.nodeAt?_nil, Option.some.injEq] at h; subst h
     exact ⟨rfl, (by simp [MNode.new, ownL]; rfl), (fun W hW => by simp [MNode.new] at hW), List.nodup_nil,
-      fun s => by simp [MNode.new, AMap.keys]⟩
+      fun s => by simp [MNode.new, AMap.keys], rfl⟩
   | cons s rest => simp [MNode.nodeAt?_cons, MNode.new, AMap.find?] at h
 
 theorem ownL_append (L : Log) (a : Weights.Add) (π : List String) :
@@ -100,7 +147,12 @@ theorem Local_fresh (L : Log) (π : List String) (hp : ∀ a ∈ L, π.isPrefixO
     intro heq
     rw [heq, isPrefixOf_self] at this
     exact Bool.noConfusion this
-  refine ⟨rfl, (by simp [MNode.new, hown]; rfl), (fun W hW => by simp [MNode.new] at hW), List.nodup_nil, fun s => ?_⟩
+  have hbelow : Weights.below L π = [] := by
+    apply List.filter_eq_nil_iff.2
+    intro a ha
+    simp [hp a ha]
+  refine ⟨rfl, (by simp [MNode.new, hown]; rfl), (fun W hW => by simp [MNode.new] at hW), List.nodup_nil, fun s => ?_,
+    by simp [MNode.new, AMap.keys, Weights.childSegs, hbelow, Weights.dedup]⟩
   simp only [MNode.new, AMap.keys, List.map_nil, List.not_mem_nil, false_iff, not_exists, not_and]
   intro a ha h
   have h1 := hp a ha
@@ -174,7 +226,9 @@ theorem Rep_add {L : Log} {T : Node} (h : Rep L T) (a : Weights.Add) :
       -- the node at the end of the path: bumped
       have hqs : segs = q := by simpa using hr
       have hown : ownL (L ++ [a]) q = ownL L q ++ [a] := by rw [ownL_append]; simp [hsegs, hqs]
-      refine ⟨hold.segment, ?_, ?_, hold.nodup, fun s => ?_⟩
+      have hkeys : Weights.childSegs (L ++ [a]) q = Weights.childSegs L q := by
+        rw [childSegs_append, hsegs, hqs, isPrefixOf_self]; simp
+      refine ⟨hold.segment, ?_, ?_, hold.nodup, fun s => ?_, by rw [hkeys]; exact hold.keysEq⟩
       · simp [MNode.modifyAt, bumpW, hown]
       · intro W hW
         simp only [MNode.modifyAt, bumpW, Option.some.injEq] at hW
@@ -209,7 +263,11 @@ theorem Rep_add {L : Log} {T : Node} (h : Rep L T) (a : Weights.Add) :
       -- a node above the end of the path: it gets (or keeps) the child `t`
       have hne : ¬ segs = q := by rw [hr]; simp
       have hown : ownL (L ++ [a]) q = ownL L q := by rw [ownL_append]; simp [hsegs, hne]
-      refine ⟨hold.segment, by rw [hown]; exact hold.wnone, by rw [hown]; exact hold.weights, ?_, fun s => ?_⟩
+      have hkeys : AMap.keys (MNode.modifyAt (bumpW a.date a.weight) (t :: r') m).Children = Weights.childSegs (L ++ [a]) q := by
+        simp only [MNode.modifyAt]
+        rw [TransAmountsSum.keys_set, childSegs_append, hsegs, hpre, hr]
+        simp only [if_true, List.drop_left, List.head?_cons, hold.keysEq]
+      refine ⟨hold.segment, by rw [hown]; exact hold.wnone, by rw [hown]; exact hold.weights, ?_, fun s => ?_, hkeys⟩
       · simp only [MNode.modifyAt]; exact wf_set hold.nodup _ _
       · simp only [MNode.modifyAt]
         rw [mem_keys_set, hold.children s]
@@ -239,7 +297,10 @@ theorem Rep_add {L : Log} {T : Node} (h : Rep L T) (a : Weights.Add) :
     have hne : ¬ segs = q := by
       intro e; subst e; rw [isPrefixOf_self] at hpre'; exact Bool.noConfusion hpre'
     have hown : ownL (L ++ [a]) q = ownL L q := by rw [ownL_append]; simp [hsegs, hne]
-    refine ⟨hold.segment, by rw [hown]; exact hold.wnone, by rw [hown]; exact hold.weights, hold.nodup, fun s => ?_⟩
+    have hkeys : Weights.childSegs (L ++ [a]) q = Weights.childSegs L q := by
+      rw [childSegs_append, hsegs, hpre']; simp
+    refine ⟨hold.segment, by rw [hown]; exact hold.wnone, by rw [hown]; exact hold.weights, hold.nodup, fun s => ?_,
+      by rw [hkeys]; exact hold.keysEq⟩
     rw [hold.children s]
     constructor
     · rintro ⟨e, he, hp⟩; exact ⟨e, List.mem_append_left _ he, hp⟩
@@ -471,6 +532,7 @@ structure LocalP (L : Log) (π : List String) (n : Node) : Prop where
   weights : ∃ W, n.Value.Weights = some W ∧ NodupKeys W ∧ ∀ d, AMap.find? W d = wOn (below L π) d
   nodup : (AMap.keys n.Children).Nodup
   children : ∀ s, s ∈ AMap.keys n.Children ↔ ∃ a ∈ L, (π ++ [s]).isPrefixOf a.path = true
+  keysEq : AMap.keys n.Children = Weights.childSegs L π
 
 /-- the subtree `n` at the path `π`: every node is the node of its path -/
 def RepAt (L : Log) (π : List String) (n : Node) : Prop := ∀ q m, MNode.nodeAt? n q = some m → Local L (π ++ q) m
@@ -667,7 +729,8 @@ theorem propagate_postOrderF (L : Log) (o1 : List String → List Int) (o2 : Lis
       simp only [MNode.nodeAt?_nil, Option.some.injEq] at hm
       subst hm
       simp only [List.append_nil]
-      refine ⟨hloc.segment, ⟨W', rfl, hnd hownN, fun d => ?_⟩, by simpa [setW] using (hinv.keys ▸ hloc.nodup), fun s => ?_⟩
+      refine ⟨hloc.segment, ⟨W', rfl, hnd hownN, fun d => ?_⟩, by simpa [setW] using (hinv.keys ▸ hloc.nodup), fun s => ?_,
+        (show AMap.keys cs' = _ from hinv.keys.trans hloc.keysEq)⟩
       · apply find?_of_get_isSome
         · rw [hget d, (hown d).1, wOn_getD]
           have e1 : List.map (fun name => AMap.get (childW { n with Children := cs' } name) d 0) (sortedKeys cs' cmpOrdered) =
@@ -727,17 +790,6 @@ theorem below_eq (L : Log) (π : List String) : below L π = Weights.below L π 
 
 theorem nodeWeight_eq (L : Log) (π : List String) (d : Int) : wOn (below L π) d = Weights.nodeWeight L π d := rfl
 
-theorem mem_dedup (x : String) : ∀ l : List String, x ∈ Weights.dedup l ↔ x ∈ l := by
-  intro l
-  induction l with
-  | nil => simp [Weights.dedup]
-  | cons y ys ih =>
-    simp only [Weights.dedup, List.mem_cons, List.mem_filter, ih, ne_eq, decide_not, Bool.not_eq_eq_eq_not, Bool.not_true,
-      decide_eq_false_iff_not]
-    by_cases h : x = y
-    · simp [h]
-    · simp [h]
-
 theorem mem_childSegs (L : Log) (π : List String) (s : String) :
     s ∈ Weights.childSegs L π ↔ ∃ a ∈ L, (π ++ [s]).isPrefixOf a.path = true := by
   unfold Weights.childSegs
@@ -764,19 +816,19 @@ theorem mem_childSegs (L : Log) (π : List String) (s : String) :
 
 /-- **the report after any log of adds and `PropagateWeights`**, in the model's terms: no panic; every node of the tree is a path prefix
 of the adds; on every date its map holds the model's `nodeWeight` (no entry where the model has none); its children are the model's
-`childSegs` (each once) — for EVERY admissible family of iteration orders -/
+`childSegs`, in the same order (the order of first occurrence) — for EVERY admissible family of iteration orders -/
 theorem PropagateWeights_model (L : Log) (o1 : List String → List Int) (o2 : List String → List String) :
     ∃ r, addAll weights.NewReport L = .ok r ∧
       ((Orders L [] r.weights o1 o2) →
         ∃ T, weights.Report.PropagateWeights r o1 o2 = .ok { r with weights := T } ∧
           ∀ q m, MNode.nodeAt? T q = some m →
             (∃ W, m.Value.Weights = some W ∧ NodupKeys W ∧ ∀ d, AMap.find? W d = Weights.nodeWeight L q d) ∧
-            (AMap.keys m.Children).Nodup ∧ ∀ s, s ∈ AMap.keys m.Children ↔ s ∈ Weights.childSegs L q) := by
+            (AMap.keys m.Children).Nodup ∧ AMap.keys m.Children = Weights.childSegs L q) := by
   obtain ⟨r, hr, hrep, _⟩ := Add_fold_agrees L
   refine ⟨r, hr, fun hord => ?_⟩
   obtain ⟨T, hT, hprop⟩ := Propagate_tree_agrees L r hrep o1 o2 hord
   refine ⟨T, hT, fun q m hm => ?_⟩
   have hl : LocalP L q m := by simpa using hprop q m hm
-  exact ⟨hl.weights, hl.nodup, fun s => by rw [hl.children s, mem_childSegs]⟩
+  exact ⟨hl.weights, hl.nodup, hl.keysEq⟩
 
 end Knut.FactsAgree.TransWeights
